@@ -376,7 +376,15 @@ func traceT1Nums(args []string) error {
 			switch k {
 			case 0:
 				g.ClosePath()
-				px, py = cx(), cx()
+				// the next contour often starts exactly beside or above the current point (hmoveto / vmoveto)
+				switch rng.Intn(3) {
+				case 0:
+					px = cx()
+				case 1:
+					py = cx()
+				default:
+					px, py = cx(), cx()
+				}
 				g.MoveTo(px, py)
 			case 1, 2:
 				px, py = cx(), cx()
